@@ -1928,6 +1928,11 @@ class Identifier(str):
     def __hash__(self) -> int:
         return super().__hash__()
 
+    def __getnewargs_ex__(self) -> tuple[tuple[object, ...], dict[str, object]]:
+        # `token` is a required keyword argument of `__new__`, which pickle and
+        # copy would not pass otherwise.
+        return ((str(self),), {"token": self.token})
+
 
 def parse_identifier(token: TokenT) -> Identifier:
     """Parse _token_ as an identifier."""
